@@ -126,6 +126,8 @@ var rejectExprs = []string{
 	`(datetime "2021-01-01")`, `(datetime "2021-01-01 24:00:00")`, `(datetime "2021-01-01 10:60:00")`, `(datetime "2021-01-01 10:00:60")`, `(datetime "2021-01-01T10:00:00")`,
 	`(date "01/02/2021" "2006-01-02")`, `(date "2021-01-01" "02/01/2006")`, `(date "31/02/2021" "02/01/2006")`, `(t_date "2021-01-01")`, `(t_time "x" "2006-01-02")`,
 	`(td_date "2021-01-01" "2006-01-02")`, `(td_time "2021-01-01")`, `(date 20210101)`, `(date "2021-01-01" 5)`, `(date)`, `(date "a" "b" "c")`,
+	// a version is digits and dots
+	`(to_version "v1.2.3")`, `(version "V10.0.1")`, `(t_version "v1")`, `(version "1.v2")`, `(version "1.2.3-rc1")`, `(version "1.2.3+5")`, `(version "1,2")`, `(version "1.2 ")`, `(version " 1.2")`,
 	// an explicitly given layout is the layout, the empty one included; white space is text like any other
 	`(date "2021-01-01" "")`, `(datetime "2021-01-01 10:00:00" "")`, `(to_date "x" "")`, `(t_date "2021-01-01" "")`, `(to_datetime " " "")`,
 	`(date "2021-01-01 ")`, `(datetime " 2021-01-01 10:00:00")`, `(td_date "2021-01-01\t")`, `(date "2021-01-01" " 2006-01-02")`, `(date " 2021-01-01" "2006-01-02")`,
